@@ -197,9 +197,10 @@ class Program:
             safely(f'inventory-shapes[{rel}]', [mod], lambda: localnames.restore(mod.tree, rel, nlog0))  # noqa: B023
             self.normalized += nlog0
         mutable = normalize.mutable_attrs([m.tree for m in allm])
+        normalize.set_tables([m.tree for m in allm])
         for rel, mod in self.modules.items():
             nlog1: list[str] = []
-            safely(f'structural[{rel}]', [mod], lambda: nlog1.extend(normalize.run(mod.tree, mutable)[1]))  # noqa: B023
+            safely(f'structural[{rel}]', [mod], lambda: nlog1.extend(normalize.run(mod.tree, mutable, rel)[1]))  # noqa: B023
             self.normalized += [f'{rel}: {x}' for x in nlog1]
             for p in ast.walk(mod.tree):
                 for c in ast.iter_child_nodes(p):
